@@ -483,15 +483,26 @@ impl<'r, D: Doc> Node<'r, D> {
   /// Returns all sibling nodes before `self`, nearest first.
   // A tree cursor is not used here: on trees with recovery (ERROR) nodes
   // `goto_previous_sibling` can land on a descendant of the previous sibling,
-  // which is not a sibling at all. The sibling links of the nodes are reliable.
+  // which is not a sibling at all. Following the previous-sibling links of the
+  // nodes is not used either: it need not terminate when the parent ends in
+  // zero-width (missing) nodes. The parent's child list is reliable.
   pub fn prev_all(&self) -> impl Iterator<Item = Node<'r, D>> + '_ {
-    let mut node = self.clone();
-    std::iter::from_fn(move || {
-      node.prev().map(|n| {
-        node = n.clone();
-        n
-      })
-    })
+    let id = self.node_id();
+    let siblings: Vec<_> = self.parent().map(|p| p.children().collect()).unwrap_or_default();
+    let before: Vec<_> = match siblings.iter().position(|c| c.node_id() == id) {
+      Some(i) => siblings[..i].iter().rev().cloned().collect(),
+      // not listed by its parent (or the root): follow the links, but never further than the list is long
+      None => {
+        let mut node = self.clone();
+        std::iter::from_fn(|| {
+          node = node.prev()?;
+          Some(node.clone())
+        })
+        .take(siblings.len())
+        .collect()
+      }
+    };
+    before.into_iter()
   }
 
   pub fn dfs<'s>(&'s self) -> Pre<'r, D> {
